@@ -747,7 +747,8 @@ func TestFrames(t *testing.T) {
 			// RawJSON: self-delimiting JSON values and null-for-empty only
 			jvals := map[string]string{"empty": ``, "one": `{}`, "two": `[1,2]`, "cr": `{"a":[{}]}`, "lf": `"x y"`, "nul": `{"k":"\u0000"}`, "comma": `[{"a":1},[]]`,
 				"hdrlike": `"Content-Length: 3"`, "b4095": `"` + strings.Repeat("s", 4093) + `"`, "b4096": `"` + strings.Repeat("s", 4094) + `"`,
-				"b4097": `"` + strings.Repeat("s", 4095) + `"`, "b70000": `["` + strings.Repeat("t", 69996) + `"]`}
+				"b4097": `"` + strings.Repeat("s", 4095) + `"`, "b70000": `["` + strings.Repeat("t", 69996) + `"]`,
+				"m600k": `{"k":"` + strings.Repeat("u", 600<<10) + `"}`, "m1": `"` + strings.Repeat("v", 1<<20) + `"`, "m5": `["` + strings.Repeat("w", 5<<20) + `",5]`}
 			ok := true
 			var recs []string
 			for _, c := range sq {
